@@ -156,13 +156,47 @@ func genC07(c *w1Case, r *simrt.Rng) {
 	}
 	o := genOpts{nKeys: [2]int{1, 2}, nMaps: [2]int{1, 1}, notePool: []int{60}, actions: []string{"cc_learning"}, exitLen: -1,
 		defaults: r.Chance(0.5), axes: r.Range(1, 3), axisKinds: []string{"cc2"}, handlers: 1}
+	// the stick stays deflected while the channel or the mapping changes: the pair of controllers "at the
+	// receiver" is then another one (other channel; in another mapping possibly the same numbers in other roles)
+	moving := r.Chance(0.35)
+	if moving {
+		o.actions = append(o.actions, "channel_up", "channel_down")
+		if r.Chance(0.6) {
+			o.nMaps = [2]int{2, 2}
+			o.actions = append(o.actions, "mapping_up", "mapping_down")
+		}
+	}
 	c.d = baseDesc(r, o)
 	shareRanges(c.d)
+	if len(c.d.Mappings) > 1 {
+		a0 := c.d.Mappings[0].Analog[0].Axes
+		a1 := c.d.Mappings[1].Analog[0].Axes
+		for i := range a1 {
+			if i >= len(a0) || a0[i].Code != a1[i].Code || a1[i].CC == nil || a1[i].CCNeg == nil {
+				continue
+			}
+			switch r.Intn(4) {
+			case 0: // mirrored
+				a1[i].CC, a1[i].CCNeg = ip(*a0[i].CCNeg), ip(*a0[i].CC)
+			case 1: // shifted
+				a1[i].CC = ip(*a0[i].CCNeg)
+			case 2: // the same pair
+				a1[i].CC, a1[i].CCNeg = ip(*a0[i].CC), ip(*a0[i].CCNeg)
+			}
+		}
+	}
 	g := newScriptGen(r, c.d)
 	learn := c.d.Actions[0]
 	axes := c.d.Mappings[0].Analog[0].Axes
 	n := r.Range(10, 80)
 	for i := 0; i < n; i++ {
+		if moving && r.Chance(0.15) {
+			ak := c.d.Actions[1+r.Intn(len(c.d.Actions)-1)]
+			if g.pressAction(ak) {
+				g.release(ak.Code)
+			}
+			continue
+		}
 		if r.Chance(0.12) {
 			if g.down[learn.Code] {
 				g.release(learn.Code)
